@@ -4,7 +4,10 @@ claimed checks) and tools/not_applicable.json. Properties that are in neither ar
 not_applicable as 'not built yet'."""
 import json, os, subprocess
 R = os.path.dirname(os.path.dirname(os.path.abspath(__file__)))
-checks = json.load(open(f"{R}/tools/checks.json"))
+import glob
+checks = []
+for f in sorted(glob.glob(f"{R}/tools/checks.d/*.json")):
+    checks += json.load(open(f))
 na = json.load(open(f"{R}/tools/not_applicable.json"))
 props = [json.loads(l) for l in open(f"{R}/properties.jsonl")]
 ids = [p["id"] for p in props]
